@@ -500,15 +500,19 @@ def verifySelfPing (c : Core) (src : Addr) (req : Request) (now : Nat) : Core ×
     else (c, false)
   | none => (c, false)
 
+/-- the server part of `Core::handle_request`: only a node in server mode answers -/
+def serveRequest (c : Core) (env : Env) (src : Addr) (req : Request) (repopulate : Bool) :
+    Core × Option Reply × Bool :=
+  if c.serverMode then
+    ({ c with server := (c.server.handleRequest env.verify (fun _ _ => true) c.rt c.srt src env.now env.wall req).1 },
+     (c.server.handleRequest env.verify (fun _ _ => true) c.rt c.srt src env.now env.wall req).2, repopulate)
+  else (c, none, repopulate)
+
 /-- `Core::handle_request` -/
 def handleRequest (c : Core) (env : Env) (src : Addr) (ro : Bool) (version : Option Bytes) (req : Request) :
     Core × Option Reply × Bool :=
-  let c := maybeAddNodeFromRequest c src version ro req env.now
-  let (c, repopulate) := verifySelfPing c src req env.now
-  if c.serverMode then
-    let (server, r) := c.server.handleRequest env.verify (fun _ _ => true) c.rt c.srt src env.now env.wall req
-    ({ c with server := server }, r, repopulate)
-  else (c, none, repopulate)
+  serveRequest (verifySelfPing (maybeAddNodeFromRequest c src version ro req env.now) src req env.now).1 env src req
+    (verifySelfPing (maybeAddNodeFromRequest c src version ro req env.now) src req env.now).2
 
 /-! #### incoming responses -/
 
